@@ -4,7 +4,7 @@ From Coq Require Import String.
 From Coq Require Import ZArith List Bool.
 From Cose Require Import Lib.Base Lib.GenTypes Model.GoVal Model.Key Model.KeyProofs Model.MsgLogic Model.MsgLogicProofs
      Model.Dispatch Model.DispatchProofs Model.Equiv Spec.RFC9053
-     Lib.Cbor Lib.CborProofs Model.CborGo Model.Wire Model.ValueRoundTrip Model.Text Model.TextProofs Model.KeyRoundTrip.
+     Lib.Cbor Lib.CborProofs Model.CborGo Model.Wire Model.ValueRoundTrip Model.Text Model.TextProofs Model.KeyRoundTrip Lib.GoSem Model.HdrSem Gen.FuncsGen Gen.KeyFuncsGen Model.KeyFuncsProofs.
 Import ListNotations.
 Open Scope Z_scope.
 
@@ -104,3 +104,19 @@ Theorem C17_roundtrip_nonvacuous :
   /\ (forall it, item_of (VMap k) = Some it -> encodable it = true).
 Proof. exact good_key_example. Qed.
 Print Assumptions C17_roundtrip_nonvacuous.
+
+(* ---- the source of the accessors every dispatch and every CheckKey goes through (Key.Kty, Key.Alg with its curve
+   fallback key.CrvAlg, Key.Kid, Key.BaseIV: bodies regenerated by the translator on every run, T14 / T11) is the model:
+   a malformed alg reads as 0 without curve fallback, an absent or zero alg falls back to the curve's algorithm *)
+Theorem C17_key_alg_source_is_model : forall k k_nil, key_Key_Alg k k_nil = Ok (key_alg k).
+Proof. exact gen_key_alg. Qed.
+Print Assumptions C17_key_alg_source_is_model.
+
+Theorem C17_crv_alg_source_is_model : forall c, FuncsGen.key_CrvAlg c = Ok (crv_alg c).
+Proof. exact gen_crv_alg. Qed.
+Print Assumptions C17_crv_alg_source_is_model.
+
+Theorem C17_key_kty_kid_source_is_model : forall k k_nil, (k_nil = true -> k = []) ->
+  key_Key_Kty k k_nil = Ok (kty k) /\ key_Key_Kid k k_nil = Ok (kid k) /\ key_Key_BaseIV k k_nil = Ok (base_iv k).
+Proof. exact (fun k k_nil H => conj (gen_key_kty k k_nil H) (conj (gen_key_kid k k_nil) (gen_key_base_iv k k_nil))). Qed.
+Print Assumptions C17_key_kty_kid_source_is_model.
